@@ -211,8 +211,8 @@ class BaseDevice(ABC):
     bounds = np.array(bounds)
     lbounds = np.array(bounds[:, 0])
     hbounds = np.array(bounds[:, 1])
-    if not np.vectorize(lambda v: v is None)(bounds).all() and not (hbounds - lbounds >= 0).all():
-      raise ValueError('max bound must be >= min bound for all min/max bound pairs: %s' % (str(hbounds - lbounds),))
+    if not np.vectorize(lambda v: v is None)(bounds).all() and not (hbounds >= lbounds).all():
+      raise ValueError('max bound must be >= min bound for all min/max bound pairs: %s' % (str(bounds),))
     return bounds
 
   @classmethod
